@@ -20,12 +20,21 @@ def run_conn(c, extra_args=()):
     traces = []
     if c.replay:
         t = c.rundir / "replay_trace.ndjson"
-        c.drive(drv, ["conn", "replay", c.replay, t])
+        import json as _j
+        first = _j.loads(open(c.replay).readline())
+        mode = "pairs" if first.get("sched", first).get("cfg", {}).get("suite") == "pairs" else "conn"
+        c.drive(drv, [mode, "replay", c.replay, t])
         traces.append(t)
     else:
         t = c.rundir / "conn.ndjson"
         c.drive(drv, ["conn", "random", c.seed * 7919 + 11, c.pick(150 if pid in ("C05", "C06") else 250, 3000), t, "steps=%d" % c.pick(25, 30)] + list(extra_args))
         traces.append(t)
+        if pid in ("C01", "C02", "C06"):
+            # real pairs: 2-3 real Swarms over memory transport + plaintext + yamux, hand-polled in schedule order;
+            # each Swarm's events form one run of the same trace spec
+            t3 = c.rundir / "pairs.ndjson"
+            c.drive(drv, ["pairs", "random", c.seed * 7919 + 13, c.pick(60, 1500), t3])
+            traces.append(t3)
         if pid in ("C05", "C06"):
             # more adversarial mix: more connections, every identity / denial combination occurs often
             t2 = c.rundir / "conn2.ndjson"
